@@ -178,16 +178,14 @@ Definition check_case (k : case) : bool :=
          let miss_f := is_none (r_functions mf) in
          let miss_g := negb gate_g in
          let exit_ok (obs model : Z) := Z.eqb obs model || (undef && Z.eqb obs (exit_code_of "TOO_FEW_REALIZATIONS")) in
-         (* outside the quantifier: merged estimation when no realization that succeeds for the gradient carries weight
-            (0/0): the stacked system is empty and the solver raises; the harness reports an escaping exception as -1 *)
-         let mraise := k_merge k && negb f_abort && gate_g && existsb g_is_undef (so ++ sc) in
-         (exit_ok (k_opt_exit k)
-                  (optimizer_step_exit (f_abort || g_abort) (cfg_rmin c) (k_allow_nan k)
-                                       [(miss_f, r_failed mf); (miss_g, failed_g)])
-          || (mraise && Z.eqb (k_opt_exit k) (-1)))
+         (* an escaping exception (reported by the harness as exit code -1, FullRaise) is never accepted, also not in the
+            0/0 region where the merged estimate has an empty stacked system (F14f, fixed by 294d53c) *)
+         exit_ok (k_opt_exit k)
+                 (optimizer_step_exit (f_abort || g_abort) (cfg_rmin c) (k_allow_nan k)
+                                      [(miss_f, r_failed mf); (miss_g, failed_g)])
          && exit_ok (k_eval_exit k) (evaluator_step_exit f_abort [miss_f])
          && match k_full k with
-            | FullRaise => mraise
+            | FullRaise => false
             | FullAbort code => Z.eqb code (exit_code_of "TOO_FEW_REALIZATIONS") && (f_abort || g_abort || undef)
             | FullResults f g =>
                 negb (f_abort || g_abort)
